@@ -348,6 +348,7 @@ func (u *Upstream) flushLoop(ctx context.Context) {
 	ticker, stop := u.Config.FlushPolicy.Ticker()
 	defer stop()
 
+	dpgCh := u.dpgCh
 	for {
 		select {
 		case <-ctx.Done():
@@ -356,6 +357,10 @@ func (u *Upstream) flushLoop(ctx context.Context) {
 			}
 			return
 		case remoteDone := <-u.explicitlyFlushCh:
+			if u.state.Is(streamStatusDraining) {
+				// Closeによるフラッシュ以降は、クローズ要求の集計に含められないため新たな書き込みを受け付けません。
+				dpgCh = nil
+			}
 			select {
 			case u.explicitlyFlushResultCh <- u.flush(ctx):
 			case <-remoteDone:
@@ -364,7 +369,7 @@ func (u *Upstream) flushLoop(ctx context.Context) {
 			continue
 		case <-ticker:
 			u.flush(ctx)
-		case dpg := <-u.dpgCh:
+		case dpg := <-dpgCh:
 			u.mu.Lock()
 			if _, ok := u.sendBuffer[*dpg.DataID]; ok {
 				u.sendBuffer[*dpg.DataID] = append(u.sendBuffer[*dpg.DataID], dpg.DataPoints...)
